@@ -103,10 +103,10 @@ func (Engine) Generate(prop, tier string, seed, run uint64) json.RawMessage {
 		if r.IntN(3) == 0 {
 			p.Net.Jumble = true
 		}
-		if nf > 1 && r.IntN(3) == 0 {
-			// capture files that overlap in time (the comparison is between import
-			// histories of the same files, so equal timestamps in two files are
-			// ordered the same way in every history)
+		if nf > 1 && p.Net.TickUS <= 1 && r.IntN(3) == 0 {
+			// capture files that overlap in time; only with a fine capture clock: when
+			// timestamps tie across two files that share a flow's packets, the order of
+			// a stream's packet references depends on the import history (DESIGN §8.4)
 			p.Net.Overlap = 2 + r.IntN(12)
 		}
 		restartEvery := []int{4, 4, 2, 1}[r.IntN(4)] // some capture sets get restart-heavy histories
